@@ -978,6 +978,20 @@ pub fn scale_family_fixed() -> Vec<(String, &'static str, Vec<String>)> {
             }
         }
     }
+    // literals whose multi-byte character contains the point 16 (32) bytes before the END of the literal
+    // (lookbehind literals are split into chunks from their end)
+    for extra in [0usize, 16] {
+        for sfx in 11..=16usize {
+            for ch in ["é", "€", "😀"] {
+                let l = format!("head:{}{}{}", ch, "d".repeat(sfx), "e".repeat(extra));
+                let miss = format!("head:{}{}{}", "e", "d".repeat(sfx), "e".repeat(extra));
+                let hays = vec![format!("{}!", l), format!("{}! {}!", miss, l), format!("x{}!!", l)];
+                out.push((format!("(?<={})!", l), "", hays.clone()));
+                out.push((format!("(?<!{})!", l), "", hays.clone()));
+                out.push((format!("(?<=({}))!", l), "u", hays.clone()));
+            }
+        }
+    }
     // classes of many disjoint ASCII intervals (alternate letters: 26 intervals; alternate printable characters:
     // 47), plain, negated and with one non-ASCII member, against every printable ASCII character
     {
